@@ -300,6 +300,8 @@ FIXED_PROGRAMS = [
     "register r[2]\ng r[r]\n",
     "register r[2]\nmap q r[0]\ng r[q]\n",
     "register r[2]\nregister s[r]\ng s[0]\n",
+    "register r[2]\nmacro m p { g p[r] }\n",
+    "register r[2]\nmap q r[0]\nmacro m p { X p[q] }\nm r\n",
     "register r[2]\nregister s[r]\nmap a s[0:1]\n",
     "register r[4]\nmap a r[0:r]\n",
     "register r[4]\nmap a r[0:2:r]\n",
@@ -416,6 +418,10 @@ FIXED_SX = [
     ["circuit", REG, ["gate", "g", ["array_item", "r", _i(0)]], ["let", "x", _i(1)], ["gate", "g", "x"]],
     ["circuit", ["gate", "g", "x"], ["let", "x", _i(1)]],
 ]
+
+# a `usepulses` that replaces the definition an EARLIER gate statement is bound to (hand-made only)
+FIXED_SX.append(["circuit", ["usepulses", "bdm.a", "*"], REG, ["gate", "X", ["array_item", "r", _i(0)]],
+                 ["usepulses", "bdm.b", "*"]])
 
 ATOMS = [None, _i(0), _i(1), _i(-1), _i(7), _f(False, 1, 0), _f(False, 5, -1), _f(True, 0, 0), "", "r", "a", "zz", "*", [], ["r"],
          ["gate", "g"], ["sequential_block"], ["let", "w", _i(1)], ["array_item", "r", _i(0)], ["register", "w", _i(1)]]
